@@ -383,6 +383,67 @@ func c01StopPoint(c *Ctx) {
 			c.Check(ok, "C01.c-one-stop-point", key, cs.In.Pos(), "the stop CID is the CID of the link given to the selector builder (undefined when there is none)", "the stop CID used by the segmented loop and the selector's stop link are not the same point: "+stop.String())
 		}
 	}
+	// the entries of an advertisement are a chain of chunks linked by their Next field: the subscriber-wide entries
+	// selector explores that field and nothing else (exploring every link fetches, stores and reports blocks that are
+	// not on the chain, and counts them against the depth limit)
+	{
+		nEnt := 0
+		for _, f := range c.Funcs(dagsyncPkg) {
+			instrs(f.SSA, func(in ssa.Instruction) {
+				st, ok := in.(*ssa.Store)
+				if !ok {
+					return
+				}
+				a := c.E(st.Addr)
+				if a.Op != "field" || canonName(a.Name) != "selectorEnts" || fieldOwner(a) != "Subscriber" {
+					return
+				}
+				nEnt++
+				v := c.E(st.Val)
+				// (the selector may be built by an unexported helper: what it returns is looked at as well)
+				exprs := []*X{v}
+				lits := append([]*ssa.Function{}, f.SSA.AnonFuncs...)
+				v.Find(func(y *X) bool {
+					if call, ok := y.V.(*ssa.Call); ok && y.Op == "call" {
+						if callee := call.Call.StaticCallee(); callee != nil && samePkgBody(f.SSA, callee) {
+							for _, b := range callee.Blocks {
+								if ret, isRet := b.Instrs[len(b.Instrs)-1].(*ssa.Return); isRet && len(ret.Results) >= 1 {
+									exprs = append(exprs, c.RetX(ret, 0))
+								}
+							}
+							lits = append(lits, callee.AnonFuncs...)
+						}
+					}
+					return false
+				})
+				anyHas := func(suffix string) bool {
+					for _, e := range exprs {
+						if e != nil && e.Contains(func(y *X) bool {
+							return (y.Op == "invoke" || y.Op == "call") && strings.HasSuffix(y.Name, suffix)
+						}) {
+							return true
+						}
+					}
+					return false
+				}
+				byFields := anyHas("ExploreFields")
+				all := anyHas("ExploreAll")
+				next := false
+				for _, lit := range lits {
+					for _, cs := range c.Calls(lit, Any()) {
+						if strings.HasSuffix(cs.X.Name, "ExploreFieldsSpecBuilder.Insert") && len(cs.X.Args) >= 2 && cs.X.Args[1].Op == "const" && cs.X.Args[1].Name == `"Next"` {
+							next = true
+						}
+					}
+				}
+				c.Check(byFields && !all && next, "C01.c-entries-follow-next-only", f.Name+" › entries selector", st.Pos(), "explores the field \"Next\" recursively, nothing else", "the subscriber-wide entries selector does not explore exactly the Next field of a chunk: links that are not part of the chain are followed (or the chain is not)")
+			})
+		}
+		if nEnt == 0 {
+			c.Unk("C01.c-entries-follow-next-only", "dagsync › entries selector", token.NoPos, "no store to the entries selector found")
+		}
+		c.Floor("C01.c-entries-follow-next-only", 1)
+	}
 	c.Floor("C01.c-one-stop-point", 3)
 
 	// the selector builder attaches the stop condition iff a link is given, with that link
